@@ -5,6 +5,7 @@ import (
 	"os"
 	"sort"
 	"strconv"
+	"strings"
 
 	"verif/sim/rng"
 	"verif/sim/val"
@@ -83,6 +84,14 @@ func genEnum(engine string, job *Job, prop string, seed, idx uint64) *RunOutcome
 	var target Op
 	for tries := 0; tries < 6; tries++ {
 		target = g.Next(e.M)
+		if !isMemName(be) && tries < 4 {
+			switch target.K {
+			case "DropIndex", "DropCollection", "Delete", "Update", "UpdateFunc", "CreateIndex", "FindAll", "Derived", "ListCollections":
+			default:
+				continue // on real engines prefer operations that hold cursors: their cleanup differs per engine
+			}
+			break
+		}
 		switch target.K {
 		case "HasCollection", "ListCollections", "HasIndex", "ListIndexes", "FindById", "FindAll", "Derived":
 			if r.Chance(0.7) {
@@ -99,6 +108,13 @@ func genEnum(engine string, job *Job, prop string, seed, idx uint64) *RunOutcome
 		target = Op{K: "Insert", Coll: coll}
 		for i := 0; i < n; i++ {
 			target.Docs = append(target.Docs, val.Wrap(map[string]interface{}{"_id": g.newID(), "a": int64(i % 7), "x": int64(i)}))
+		}
+		if r.Chance(0.4) {
+			// large records: the batch exceeds the transaction size limit of a small badger
+			pad := strings.Repeat("p", 700)
+			for i := range target.Docs {
+				target.Docs[i].X.(map[string]interface{})["pad"] = pad
+			}
 		}
 		if engine == "fault" && r.Chance(0.5) {
 			// an offending document late in the batch: duplicate of an earlier one, or malformed
@@ -120,6 +136,14 @@ func genEnum(engine string, job *Job, prop string, seed, idx uint64) *RunOutcome
 		follow = Op{K: "Insert", Coll: names[r.Intn(len(names))], Docs: []val.V{val.Wrap(g.doc(true))}}
 	}
 	follow.Note = "follow-up"
+	if engine == "fault" {
+		// after a failed operation the database is as before: the very same
+		// operation, issued again without the fault, must behave as it does on a
+		// database that never saw the failure
+		again := target
+		again.Note = "follow-up: the target again, fault-free"
+		rf.Ops = append(rf.Ops, again)
+	}
 	rf.Ops = append(rf.Ops, follow)
 	e.Finish()
 	return runEnum(rf)
@@ -147,6 +171,9 @@ func enumOnce(rf *RunFile, target int, fault, crash int, post bool) (*Exec, erro
 		op.Fault, op.Crash, op.CrashPost = 0, 0, false
 		if i < target {
 			// prefix: no oracle work needed beyond what Step does
+		}
+		if fault == 0 && crash == 0 && i > target && strings.HasPrefix(op.Note, "follow-up: the target again") {
+			continue // the fault-free reference run has just executed the target
 		}
 		if i == target {
 			op.Fault, op.Crash, op.CrashPost = fault, crash, post
